@@ -180,6 +180,26 @@ fn run(ctx: &mut Ctx) {
                         || json!({"kind": "other", "name": name, "cfg": cfg.opts}),
                     );
                 }
+                // and on rows that never had a squawk (created by DF11, or by the frame itself): it stays blank
+                for with_df11 in [true, false] {
+                    let mut l = vec![];
+                    if with_df11 {
+                        l.push(hexline(&frames::df11(5, addr, 0)));
+                    }
+                    l.push(hexline(&f));
+                    let o = single(&cfg, addr, l);
+                    ctx.eval();
+                    ctx.count("other-format-leaves-squawk");
+                    let got = o.row().and_then(|s| s.squawk);
+                    if got.is_some() {
+                        ctx.violation(
+                            "C06/other-format-blank",
+                            &format!("{name}/{}/{}", cfg.label(), if with_df11 { "after DF11" } else { "first frame" }),
+                            || format!("{name} frame {} gave the aircraft squawk {got:?} although no DF5/DF21 was ever received", f.hex()),
+                            || json!({"kind": "other-blank", "name": name, "cfg": cfg.opts, "with_df11": with_df11}),
+                        );
+                    }
+                }
             }
         }
     }
@@ -200,6 +220,25 @@ fn replay(ctx: &mut Ctx, case: &Value) {
             let ob = single(&cfg, addr, lines(&v, addr));
             crate::run::say(&format!("lines {:?} cfg [{}]: expected squawk {:04}, observed {:?}", lines(&v, addr).iter().map(|l| String::from_utf8_lossy(l).into_owned()).collect::<Vec<_>>(), cfg.label(), fields::squawk(v.id13), ob.row().map(|s| s.squawk)));
             judge(ctx, &cfg, &v, addr, &ob);
+        }
+        Some("other-blank") => {
+            let addr = 0x3C4DD2;
+            let name = case.get("name").and_then(|x| x.as_str()).unwrap_or("");
+            let with_df11 = case.get("with_df11").and_then(|x| x.as_bool()).unwrap_or(true);
+            for (n, f) in other_formats(addr) {
+                if n == name {
+                    let mut l = vec![];
+                    if with_df11 {
+                        l.push(hexline(&frames::df11(5, addr, 0)));
+                    }
+                    l.push(hexline(&f));
+                    let got = single(&cfg, addr, l).row().and_then(|s| s.squawk);
+                    crate::run::say(&format!("{name} {}: squawk afterwards {got:?} (no DF5/DF21 ever received)", f.hex()));
+                    if got.is_some() {
+                        ctx.violation("C06/other-format-blank", &format!("{name}/{}", cfg.label()), || format!("{name} set squawk {got:?}"), || case.clone());
+                    }
+                }
+            }
         }
         Some("other") => {
             let addr = 0x3C4DD2;
